@@ -500,28 +500,45 @@ fn level2(report: &mut Report, tier: Tier) {
         let mut types = IndexTypes::new();
         types.insert(0, (metric, dim));
         let opts = BuildOpts { n_trees: Some(trees), split_after: Some(1), memory: None, seed: crate::common::verif_seed(), cancel_at: None };
-        let start: Kv = crate::explore::in_single_thread_pool(|| {
+        let start: Result<Kv, String> = crate::explore::in_single_thread_pool(|| {
             let mut wtxn = scratch.env.write_txn().unwrap();
             for i in 0..base {
                 let (o, _) = exec(scratch.db, &mut wtxn, &mut types.clone(), &Action::Add { index: 0, id: i as u32, vec: menu[i][0].clone() });
-                assert!(o.is_ok());
+                if !o.is_ok() {
+                    return Err(format!("add_item: {}", o.describe()));
+                }
             }
             let (o, _) = exec(scratch.db, &mut wtxn, &mut types.clone(), &Action::Build { index: 0, opts: opts.clone() });
-            assert!(o.is_ok(), "{}", o.describe());
+            if !o.is_ok() {
+                return Err(format!("the base build on one thread: {}", o.describe()));
+            }
             for i in base..base + added {
                 let (o, _) = exec(scratch.db, &mut wtxn, &mut types.clone(), &Action::Add { index: 0, id: i as u32, vec: menu[i][1].clone() });
-                assert!(o.is_ok());
+                if !o.is_ok() {
+                    return Err(format!("add_item: {}", o.describe()));
+                }
             }
             let kv = scratch.dump(&wtxn);
             wtxn.abort();
-            kv
+            Ok(kv)
         });
+        let start = match start {
+            Ok(kv) => kv,
+            Err(e) => {
+                report.add_violation(Violation::new("N/build-failed:base", format!("{trees} trees, {base} items: {e}")));
+                continue;
+            }
+        };
         let expect: std::collections::BTreeSet<u32> = (0..(base + added) as u32).collect();
         // reference: the same build on one thread
         let reference = match run_l2(&scratch, &start, dim, metric, &opts, 1, &[]) {
             Ok((_, kv, Ok(()))) => decode_index(&kv, 0, metric, dim).map(|ix| canonical_forest(&ix)).unwrap_or_default(),
-            other => {
-                report.machinery_error(format!("L2 reference build failed: {:?}", other.map(|x| x.2)));
+            Ok((_, _, Err(e))) => {
+                report.add_violation(Violation::new("N/build-failed:one-thread", format!("{trees} trees, {base}+{added} items, one thread: {e}")));
+                continue;
+            }
+            Err(e) => {
+                report.machinery_error(format!("L2 reference build: {e}"));
                 continue;
             }
         };
